@@ -149,6 +149,59 @@ def validate(drv, kind, with_dt, nret, tbl, body_sx):
     return r
 
 
+def _names_in(sx, acc):
+    if isinstance(sx, list):
+        if sx and sx[0] == "v":
+            acc.add(sx[1])
+        else:
+            for x in sx[1:]:
+                _names_in(x, acc)
+    return acc
+
+
+def mirror_function_issue(drv, kind, ru, order, args, body_sx):
+    """statement-by-statement comparison of a function the implementation generated (its exported skeleton) with
+    the function the verified mirror generator (Codegen.gen_rhs / gen_monitor / gen_euler, MirrorValid.v) produces
+    for the same model: same formals, same unpack statements in the same order with the same indices, same
+    assignments in the same order, same slots written in the same places from the same names.  A let of the
+    implementation may read fewer names than the definition mentions (sympy drops 0*x)."""
+    r = drv.ask(["mirror", kind, "1" if ru else "0", order])
+    f = r.get("func")
+    if r.get("status") != "ok" or f is None:
+        return "the mirror generator produces no function (" + str(r)[:80] + ")"
+    if list(f["args"]) != list(args):
+        return f"formals differ: implementation {list(args)}, mirror {f['args']}"
+    mb = f["body"]
+    if len(mb) != len(body_sx):
+        return f"the implementation's function has {len(body_sx)} statements, the mirror's {len(mb)}"
+    for k, (a, b) in enumerate(zip(body_sx, mb)):
+        if a[0] != b[0]:
+            return f"statement {k}: implementation {a[:2]}, mirror {b[:2]}"
+        if a[0] in ("us", "up", "um"):
+            if a[1] != b[1] or int(a[2]) != int(b[2]):
+                return f"statement {k}: implementation unpacks {a[1]} from slot {a[2]}, mirror {b[1]} from slot {b[2]}"
+        elif a[0] == "let":
+            if a[1] != b[1]:
+                return f"statement {k}: implementation assigns {a[1]}, mirror {b[1]}"
+            if not set(a[2]) <= set(b[2]) | {"t", "time"}:
+                return f"statement {k}: {a[1]} reads {sorted(set(a[2]) - set(b[2]))}, which its definition does not mention"
+        elif a[0] == "store":
+            if int(a[1]) != int(b[1]) or _names_in(a[2], set()) != _names_in(b[2], set()):
+                return f"statement {k}: implementation writes slot {a[1]} from {sorted(_names_in(a[2], set()))}, mirror slot {b[1]} from {sorted(_names_in(b[2], set()))}"
+    return None
+
+
+def check_mirror_function(rep, drv, text, kind, ru, order, args, body_sx):
+    issue = mirror_function_issue(drv, kind, ru, order, args, body_sx)
+    if issue is None:
+        rep.count("functions_equal_to_the_verified_mirror")
+        return True
+    rep.violation(f"generated {kind} (remove_unused={ru}) differs from the verified mirror generator: {issue}",
+                  {"kind": "correspondence", "relation": f"Codegen.gen_{kind} vs generated code", "text": text, "remove_unused": ru,
+                   "failing_input": None}, failing_input_found=False)
+    return False
+
+
 THEOREM_OF = {"rhs": "MirrorValid.mirror_rhs_correct", "euler": "MirrorValid.mirror_euler_correct",
               "named": "MirrorValid.mirror_monitor_correct"}
 
